@@ -358,6 +358,23 @@ def rule_add(ctx: Ctx):
                           bad_detail="an existing annotator's unit set can be overwritten", key="create-set")
         if qn == "Continuum.add_annotator" and not found:
             ctx.bad("R-C13-3", g, None, "add_annotator never creates the annotator's set", construct="create", key="create-set")
+    # (e2) closedness: add / add_annotator / reset_bounds have exactly the effects the invariant argument accounts for
+    def effects_of(qn):
+        g = ctx.fn(qn, "R-C13-3")
+        gf = p.flow(g)
+        return g, {(str(m.av), m.how.split(" (")[0]) for m in gf.mutations if m.av.kind == "param"}
+    expected = {
+        "Continuum.add": {("param:self._annotations", "subscript store"), ("param:self._categories", "call .add"), ("param:self._annotations[]", "call .add"),
+                          ("param:self", "store .bound_inf"), ("param:self", "store .bound_sup")},
+        "Continuum.add_annotator": {("param:self._annotations", "subscript store")},
+        "Continuum.reset_bounds": {("param:self", "store .bound_inf"), ("param:self", "store .bound_sup")},
+    }
+    for qn, want in expected.items():
+        g, eff = effects_of(qn)
+        extra = sorted(eff - want)
+        ctx.check(not extra, "R-C13-3", g, None, f"{qn} has no effect beyond {sorted(x[1] + ' on ' + x[0].replace('param:', '') for x in want)}",
+                  bad_detail=f"{qn} also does {extra}: an effect the representation-invariant argument does not account for "
+                             f"(e.g. removing or replacing units while adding, touching another field)", construct=f"(effects of {qn.split('.')[-1]})", key=f"effects:{qn}")
     # (f) remove touches only the annotator's own set
     r = ctx.fn("Continuum.remove", "R-C13-3")
     rf = p.flow(r)
